@@ -196,10 +196,9 @@ func (calc Calculator) isPortfolioAccount(a *model.Account) bool {
 
 // Performance computes the portfolio performance.
 func Performance(dpv *journal.Performance) float64 {
-	var (
-		v0, v1          float64
-		inflow, outflow = dpv.PortfolioInflow, dpv.PortfolioOutflow
-	)
+	// PortfolioInflow and PortfolioOutflow are effects on the portfolio as a whole (@performance() without
+	// targets): they are part of V1 already and no external flows.
+	var v0, v1, inflow, outflow float64
 	for _, v := range dpv.V0 {
 		v0 += v
 	}
